@@ -139,7 +139,17 @@ fn chain_rule_programs() -> Vec<Prog> {
         out.push(finish(ops, 11));
     }
     for b in BINARY {
-        if matches!(b, "Min" | "Max" | "Compare" | "And" | "Or" | "Mod" | "Mix") {
+        if matches!(b, "Min" | "Max" | "Compare" | "And" | "Or" | "Mix") {
+            continue;
+        }
+        if b == "Mod" {
+            // differentiable away from the multiples of the divisor: positive and negative dividends and divisors
+            for (sa, sb) in [(0.25f32, 3.0f32), (-4.5, 3.0), (4.5, -3.0), (-4.5, -3.0), (7.3, 2.0)] {
+                let mut ops = affine(10, 3, sa, 1.0);
+                ops.extend(affine(20, 12, sb, 0.5));
+                ops.push(GOp::new(6, b, 21, 10, 20, 0));
+                out.push(finish(ops, 21));
+            }
             continue;
         }
         let mut ops = affine(10, 3, 0.25, 1.0);
